@@ -1055,6 +1055,9 @@ MUTANTS = [
     dict(id="C16.f-trim-loop-guarded-by-the-wrong-region", prop="C16", file="crates/storage/src/tiny_lfu/policy.rs",
          old="        while self.lru.pinned_len() > 0 {", new="        while self.lru.probation_len() > 0 {",
          expect="C16.f/policy/region-head-unwrapped-only-under-its-own-length-test"),
+    dict(id="C02.i-D14-reintroduced-cancelled-request-always-unregisters", prop="C02", file=CG + "computing.rs",
+         old="        if request.in_flight > 0 || request.kept {\n            return;\n        }\n", new="",
+         expect="C02.i/register_callee/undo-token-belongs-to-the-registration"),
     dict(id="C12.k-varint-reader-u128-stops-on-set-bit", prop="C12", file="crates/serialize/src/postcard.rs",
          old="            result |= u128::from(byte & 0x7F) << shift;\n\n            if byte & 0x80 == 0 {",
          new="            result |= u128::from(byte & 0x7F) << shift;\n\n            if byte & 0x80 != 0 {",
